@@ -23,8 +23,8 @@ Proof.
   - change spec_globals with [(n_namespace, VNsCtor)]. destruct (dget N.eqb x [(n_namespace, VNsCtor)]); [discriminate|reflexivity].
 Qed.
 
-Theorem scoping_correct_core_thm : forall (pynorm : name -> name) (priv : name -> bool) d p,
-  core_prog p = true -> wf_names p = true -> noalias pynorm p = true -> guard_rbw p d = true ->
+Theorem scoping_correct_ext_thm : forall (pynorm : name -> name) (priv : name -> bool) d p,
+  core2_prog p = true -> wf_names p = true -> noalias pynorm p = true -> guard_rbw p d = true ->
   forall fuel, frender pynorm priv d fuel p = srender priv d fuel p.
 Proof.
   intros pynorm priv d p Hc Hw Hn Hg fuel.
@@ -35,6 +35,32 @@ Proof.
   - intros x Hx. right. exact Hx.
   - apply guard_rbw_gok. exact Hg.
 Qed.
+
+(* the core fragment is part of the extended one *)
+Lemma core_go' : forall l, (fix go (l : list stmt) : bool := match l with [] => true | x :: r => core_stmt x && go r end) l = core_prog l.
+Proof. induction l as [|x r IH]; cbn; [reflexivity|rewrite IH; reflexivity]. Qed.
+Lemma core_incl_stmt : forall s, core_stmt s = true -> core2_stmt s = true.
+Proof.
+  intros s. pattern s.
+  apply (stmt_ind2 _ (fun l => core_prog l = true -> core2_prog l = true)); clear s; try (intros; cbn in *; try discriminate; auto; fail).
+  - intros t b ei el Hb Hei Hel H. cbn [core_stmt core2_stmt] in *. rewrite (core_go' b), (core_go' ei), (core_go' el) in H. rewrite (core2_go b), (core2_go ei), (core2_go el).
+    apply andb_true_iff in H. destruct H as [H H3]. apply andb_true_iff in H. destruct H as [H1 H2].
+    rewrite (Hb H1), (Hei H2), (Hel H3). reflexivity.
+  - intros tg it te b el Hb Hel H. cbn [core_stmt core2_stmt] in *. destruct te; [discriminate|]. rewrite (core_go' b), (core_go' el) in H. rewrite (core2_go b), (core2_go el).
+    apply andb_true_iff in H. destruct H as [H1 H2]. rewrite (Hb H1), (Hel H2). reflexivity.
+  - intros bs b Hb H. cbn in *. destruct bs; [|discriminate]. auto.
+  - intros st l Hs Hl H. cbn [core_prog core2_prog] in *. apply andb_true_iff in H. destruct H as [H1 H2]. rewrite (Hs H1), (Hl H2). reflexivity.
+Qed.
+Lemma core_incl : forall p, core_prog p = true -> core2_prog p = true.
+Proof.
+  induction p as [|s r IH]; intros H; [reflexivity|]. cbn [core_prog core2_prog] in *.
+  apply andb_true_iff in H. destruct H as [H1 H2]. rewrite (core_incl_stmt s H1), (IH H2). reflexivity.
+Qed.
+
+Theorem scoping_correct_core_thm : forall (pynorm : name -> name) (priv : name -> bool) d p,
+  core_prog p = true -> wf_names p = true -> noalias pynorm p = true -> guard_rbw p d = true ->
+  forall fuel, frender pynorm priv d fuel p = srender priv d fuel p.
+Proof. intros pynorm priv d p Hc. apply scoping_correct_ext_thm. apply core_incl. exact Hc. Qed.
 
 (* ---------------------------------------------------------------- static binding *)
 (* A frame as the code generator builds it: declared parameters [ps] (loop target and `loop`,
@@ -123,23 +149,28 @@ Section NoFuel.
     intros env st h kvs. induction kvs as [|[a e] r IH]; cbn [eval_kvs]; [discriminate|].
     apply bind_noF; [apply eval_noF|]. intros v _. apply bind_noF; [exact IH|]. intros; discriminate.
   Qed.
+  Lemma eval_list_noF : forall env st h es, noF (eval_list (slk d env st) h es).
+  Proof.
+    intros env st h es. induction es as [|e r IH]; cbn [eval_list]; [discriminate|].
+    apply bind_noF; [apply eval_noF|]. intros v _. apply bind_noF; [exact IH|]. intros; discriminate.
+  Qed.
   Lemma iter_items_noF : forall v, noF (iter_items v).
   Proof. intros v. destruct v; cbn; discriminate. Qed.
 
-  Lemma sx_noF : forall fuel env st l, core_prog l = true -> ssize_l l < fuel -> noF (sx d fuel env st l).
+  Lemma sx_noF : forall fuel env st l, core2_prog l = true -> ssize_l l < fuel -> noF (sx d fuel env st l).
   Proof.
     induction fuel as [|f IH]; intros env st l Hc Hs; [lia|].
     destruct l as [|s rest]; [cbn; discriminate|].
-    cbn [core_prog] in Hc. apply andb_true_iff in Hc. destruct Hc as [Hcs Hcr].
+    cbn [core2_prog] in Hc. apply andb_true_iff in Hc. destruct Hc as [Hcs Hcr].
     cbn [ssize_l] in Hs. pose proof (ssize_pos s) as Hp.
     cbn [sx]. apply bind_noF.
     2:{ intros [st1 o1] _. apply bind_noF; [apply IH; [exact Hcr|lia]|]. intros [st2 o2] _. discriminate. }
-    destruct s as [es|t b ei el|tg it te b el|x e|x a e|x kvs|x b|bs b|k b|m ps b|g args|ps g args b]; cbn [core_stmt] in Hcs; try discriminate.
+    destruct s as [es|t b ei el|tg it te b el|x e|x a e|x kvs|x b|bs b|k b|m ps b|g args|ps g args b]; cbn [core2_stmt] in Hcs; try discriminate.
     - apply bind_noF; [apply eval_out_noF|]. intros; discriminate.
-    - rewrite (core_go b), (core_go ei), (core_go el) in Hcs. apply andb_true_iff in Hcs. destruct Hcs as [Hcs H3]. apply andb_true_iff in Hcs. destruct Hcs as [H1 H2].
+    - rewrite (core2_go b), (core2_go ei), (core2_go el) in Hcs. apply andb_true_iff in Hcs. destruct Hcs as [Hcs H3]. apply andb_true_iff in Hcs. destruct Hcs as [H1 H2].
       cbn [ssize] in Hs. rewrite (ssize_go b), (ssize_go ei), (ssize_go el) in Hs.
       apply bind_noF; [apply eval_noF|]. intros v _. destruct (truthy v); [apply IH; [exact H1|lia]|].
-      assert (G : forall ei, core_prog ei = true -> ssize_l ei <= ssize_l ei -> ssize_l ei + ssize_l el < f ->
+      assert (G : forall ei, core2_prog ei = true -> ssize_l ei <= ssize_l ei -> ssize_l ei + ssize_l el < f ->
                 noF ((fix go (ei : list stmt) : res (sstate * str) :=
                         match ei with
                         | [] => sx d f env st el
@@ -148,38 +179,47 @@ Section NoFuel.
                         end) ei)).
       { induction ei0 as [|s r IHr]; intros Hc0 _ Hs0.
         - apply IH; [exact H3|cbn in Hs0; lia].
-        - cbn [core_prog] in Hc0. apply andb_true_iff in Hc0. destruct Hc0 as [Hc1 Hc2]. cbn [ssize_l] in Hs0.
+        - cbn [core2_prog] in Hc0. apply andb_true_iff in Hc0. destruct Hc0 as [Hc1 Hc2]. cbn [ssize_l] in Hs0.
           pose proof (ssize_pos s).
           destruct s; try (apply IHr; [exact Hc2|lia|lia]).
           apply bind_noF; [apply eval_noF|]. intros v2 _. destruct (truthy v2); [|apply IHr; [exact Hc2|lia|lia]].
-          cbn [core_stmt] in Hc1. rewrite (core_go body), (core_go elifs), (core_go els) in Hc1. apply andb_true_iff in Hc1. destruct Hc1 as [Hc1 _]. apply andb_true_iff in Hc1. destruct Hc1 as [Hc1 _].
+          cbn [core2_stmt] in Hc1. rewrite (core2_go body), (core2_go elifs), (core2_go els) in Hc1. apply andb_true_iff in Hc1. destruct Hc1 as [Hc1 _]. apply andb_true_iff in Hc1. destruct Hc1 as [Hc1 _].
           cbn [ssize] in Hs0. rewrite (ssize_go body), (ssize_go elifs), (ssize_go els) in Hs0. apply IH; [exact Hc1|lia]. }
       apply G; [exact H2|lia|lia].
-    - destruct te as [t|]; [discriminate|]. rewrite (core_go b), (core_go el) in Hcs. apply andb_true_iff in Hcs. destruct Hcs as [H1 H2].
+    - rewrite (core2_go b), (core2_go el) in Hcs. apply andb_true_iff in Hcs. destruct Hcs as [H1 H2].
       cbn [ssize] in Hs. rewrite (ssize_go b), (ssize_go el) in Hs.
       apply bind_noF; [apply eval_noF|]. intros v _. apply bind_noF; [apply iter_items_noF|]. intros items _.
       apply bind_noF.
       + generalize 0%N as idx. generalize (@nil N) as out. revert st.
         induction items as [|item more IHm]; intros st0 out idx; [discriminate|].
-        cbn [bind]. destruct (new_scope st0 [(tg, item); (n_loop, VLoop (idx + 1))]) as [i st1].
-        apply bind_noF; [apply IH; [exact H1|lia]|]. intros [st2 o] _. apply IHm.
+        apply bind_noF.
+        * destruct te as [t|]; [|discriminate]. destruct (new_scope st0 [(tg, item)]) as [i stt].
+          apply bind_noF; [apply eval_noF|]. intros; discriminate.
+        * intros ok _. destruct ok; [|apply IHm].
+          destruct (new_scope st0 [(tg, item); (n_loop, VLoop (idx + 1))]) as [i st1].
+          apply bind_noF; [apply IH; [exact H1|lia]|]. intros [st2 o] _. apply IHm.
       + intros [[st1 out] n] _. destruct el as [|e0 el']; [discriminate|]. destruct (N.eqb n 0); [|discriminate].
         destruct (new_scope st1 []) as [i st2]. apply bind_noF; [apply IH; [exact H2|lia]|]. intros [st3 o] _. discriminate.
     - apply bind_noF; [apply eval_noF|]. intros; discriminate.
     - destruct (slk_ok env st x) as [c ->]. cbn [bind]. destruct c; try discriminate.
       apply bind_noF; [apply eval_noF|]. intros; discriminate.
     - destruct (slk_ok env st n_namespace) as [c ->]. cbn [bind]. apply bind_noF; [apply eval_kvs_noF|]. intros vs _. destruct c; discriminate.
-    - rewrite core_go in Hcs. cbn [ssize] in Hs. rewrite ssize_go in Hs.
+    - rewrite core2_go in Hcs. cbn [ssize] in Hs. rewrite ssize_go in Hs.
       destruct (new_scope st []) as [i st1]. apply bind_noF; [apply IH; [exact Hcs|lia]|]. intros [st2 o] _. discriminate.
-    - destruct bs as [|b0 bs]; [|discriminate]. rewrite core_go in Hcs. cbn [ssize] in Hs. rewrite ssize_go in Hs.
-      cbn [map eval_list bind]. destruct (new_scope st _) as [i st1]. apply bind_noF; [apply IH; [exact Hcs|lia]|]. intros [st2 o] _. discriminate.
-    - rewrite core_go in Hcs. cbn [ssize] in Hs. rewrite ssize_go in Hs.
+    - rewrite core2_go in Hcs. cbn [ssize] in Hs. rewrite ssize_go in Hs.
+      apply bind_noF; [apply eval_list_noF|]. intros vs _.
+      destruct (new_scope st _) as [i st1]. apply bind_noF; [apply IH; [exact Hcs|lia]|]. intros [st2 o] _. discriminate.
+    - rewrite core2_go in Hcs. cbn [ssize] in Hs. rewrite ssize_go in Hs.
       destruct (new_scope st []) as [i st1]. apply bind_noF; [apply IH; [exact Hcs|lia]|]. intros [st2 o] _. discriminate.
   Qed.
 End NoFuel.
 
-Theorem fuel_adequate_thm : forall priv d p fuel, core_prog p = true -> ssize_l p < fuel ->
+Theorem fuel_adequate_thm : forall priv d p fuel, core2_prog p = true -> ssize_l p < fuel ->
   srender priv d fuel p <> Err EFuel.
 Proof.
   intros priv d p fuel Hc Hs. unfold srender. apply bind_noF; [apply sx_noF; auto|]. intros [st o] _. discriminate.
 Qed.
+
+Theorem fuel_adequate_core_thm : forall priv d p fuel, core_prog p = true -> ssize_l p < fuel ->
+  srender priv d fuel p <> Err EFuel.
+Proof. intros priv d p fuel Hc. apply fuel_adequate_thm. apply core_incl. exact Hc. Qed.
